@@ -14,6 +14,54 @@ Definition str := list N.
 (** hex literal -> str (used by the generated cases files) *)
 Definition hx (s : String.string) : str := Ns_of_bytes (bytes_of_hex s).
 
+(** compact literal used by the generated cases files: [len] bytes, big
+    endian, of the number [v] (string literals are slow to parse) *)
+Fixpoint sN_aux (len : nat) (v : N) (acc : str) : str :=
+  match len with
+  | O => acc
+  | S k => sN_aux k (N.shiftr v 8) (N.land v 255 :: acc)
+  end.
+Definition sN (len : nat) (v : N) : str := sN_aux len v [].
+
+(** Decoders for the flat token streams written by the harnesses
+    (harness/hcq): a cases file is one long [a :: b :: ... :: nil] of numbers,
+    which Coq reads an order of magnitude faster than nested list and string
+    literals.  string = length, value; list = count, elements; option = 0 | 1 x;
+    bool = 0 | 1. *)
+Definition dec (A : Type) := list N -> option (A * list N).
+
+Definition d_N : dec N := fun s => match s with x :: r => Some (x, r) | [] => None end.
+Definition d_nat : dec nat := fun s => match s with x :: r => Some (N.to_nat x, r) | [] => None end.
+Definition d_bool : dec bool := fun s => match s with x :: r => Some (negb (x =? 0), r) | [] => None end.
+Definition d_str : dec str :=
+  fun s => match s with l :: v :: r => Some (sN (N.to_nat l) v, r) | _ => None end.
+Definition d_map {A B} (f : A -> B) (d : dec A) : dec B :=
+  fun s => match d s with Some (a, r) => Some (f a, r) | None => None end.
+Definition d_pair {A B} (da : dec A) (db : dec B) : dec (A * B) :=
+  fun s => match da s with
+           | Some (a, r) => match db r with Some (b, r') => Some ((a, b), r') | None => None end
+           | None => None
+           end.
+Fixpoint d_rep {A} (d : dec A) (n : nat) : dec (list A) :=
+  fun s => match n with
+           | O => Some ([], s)
+           | S k => match d s with
+                    | Some (a, r) => match d_rep d k r with Some (l, r') => Some (a :: l, r') | None => None end
+                    | None => None
+                    end
+           end.
+Definition d_list {A} (d : dec A) : dec (list A) :=
+  fun s => match s with n :: r => d_rep d (N.to_nat n) r | [] => None end.
+Definition d_option {A} (d : dec A) : dec (option A) :=
+  fun s => match s with
+           | 0 :: r => Some (None, r)
+           | _ :: r => d_map Some d r
+           | [] => None
+           end.
+(** the whole stream is one list of cases; anything else is a decoding error *)
+Definition decode_cases {A} (d : dec A) (s : list N) : option (list A) :=
+  match d_list d s with Some (l, []) => Some l | _ => None end.
+
 (** ASCII literal -> str (used by models and theorem statements) *)
 Fixpoint lit (s : String.string) : str :=
   match s with
